@@ -92,6 +92,7 @@ class Gen:
 
         nst = rng.randint(1, f.get("max_stmts", 9))
         used_inner = set()
+        whole_containers = []  # results of nested DAG calls that are python containers of results
         for _ in range(nst):
             r = rng.random()
             opable = [v for v, i in vars_.items() if i["plain"] and not i["maybe_none"]]
@@ -143,6 +144,8 @@ class Gen:
                     t = newvar()
                     st["t"] = [t]
                     st["unpack"] = 0
+                    if kind in ("tuple", "list", "dict"):
+                        whole_containers.append(t)
                     # the value is a python container of results: only usable whole or by a static index
                     vars_[t] = dict(shape=None, maybe_none=True, plain=False, elem=False, container=(kind, items if kind != "dict" else list(items)))
                     if kind in ("tuple", "list", "dict") and not mn:
@@ -210,7 +213,10 @@ class Gen:
             prog["stmts"].append(dict(op="call", fn=fname, args=[params[0]] if params else [], kwargs={}, active=None, tag=None, site=site[0], t=[t]))
             vars_[t] = dict(shape=specs[fname]["shape"], maybe_none=False, plain=False, elem=False)
             rvars = [t]
-        if rk < 0.08 and not is_inner:
+        if whole_containers and not is_inner and rng.random() < 0.3:
+            # pass the tuple / list / dict returned by a nested DAG on as the outer return value (type-strict comparison)
+            prog["ret"] = ["single", [rng.choice(whole_containers)]]
+        elif rk < 0.08 and not is_inner:
             prog["ret"] = ["none", []]
         elif rk < 0.3:
             prog["ret"] = ["single", [rpick()]]
